@@ -1118,13 +1118,16 @@ func zipInnerSubscription[T any](subscriberCtx context.Context, obs Observable[T
 					onUpdate(ctx)
 				},
 				func(ctx context.Context, err error) {
+					// The error goes out first: once the source is flagged as finished, a
+					// concurrent onUpdate may complete the destination and shadow the error.
+					destination.ErrorWithContext(ctx, err)
+
 					mu.Lock()
 
 					*completed = true
 
 					mu.Unlock()
 
-					destination.ErrorWithContext(ctx, err)
 					subscriptions.Unsubscribe()
 				},
 				func(ctx context.Context) {
